@@ -188,6 +188,13 @@ def _exec_unit(args):
                 near = [h for h in pool_ if _func_symbols(h, set(), consts=True) & gs]
                 near0 = [h for h in near if h.get_id() not in let_ids]
                 variants = []
+                if ob.kind in ("post", "inv.preserve", "inv.init", "pre"):
+                    try:
+                        gi = ground_instances(ob.goal, pool_)
+                    except Exception:
+                        gi = None
+                    if gi is not None:
+                        variants.append(solve.obligation_smt2(type(ob)(ob.name, ob.kind, gi[0], gi[1]), []))
                 if len(near0) < len(near):
                     variants.append(solve.obligation_smt2(type(ob)(ob.name, ob.kind, near0, ob.goal), []))
                 if len(near) < len(pool_):
@@ -203,6 +210,87 @@ def _exec_unit(args):
                 "dropped_calls": rr.ctx.dropped_calls}
     except Exception:
         return {"key": key, "label": label, "crash": traceback.format_exc(), "obligations": [], "exec_s": time.time() - t0}
+
+
+def ground_instances(goal, hyps, rounds=2, max_terms=24):
+    """Hand-made E-matching for the common shape 'forall i. guard -> A(i) == body(i)': skolemise the goal, instantiate
+    every one-variable integer-quantified hypothesis at the index terms occurring under uninterpreted functions, and
+    return (quantifier-free hypotheses, skolemised goal).  Every instance is implied by its hypothesis, so a proof from
+    the instances is a proof from the hypotheses (dropping the quantified originals only weakens)."""
+    import z3
+    g = goal
+    if z3.is_quantifier(g) and g.is_forall():
+        consts = [z3.FreshConst(g.var_sort(k), "sk") for k in range(g.num_vars())]
+        g = z3.substitute_vars(g.body(), *reversed(consts))
+    if _has_quantifier(g):
+        return None
+    ground = [h for h in hyps if not _has_quantifier(h)]
+    quant = [h for h in hyps if z3.is_quantifier(h) and h.is_forall() and h.num_vars() == 1
+             and h.var_sort(0) == z3.IntSort()]
+    seen_terms = {}
+    insts = []
+
+    def index_terms(t, acc):
+        stack, seen = [t], set()
+        while stack:
+            x = stack.pop()
+            if x.get_id() in seen or z3.is_quantifier(x):
+                continue
+            seen.add(x.get_id())
+            if z3.is_app(x):
+                d = x.decl()
+                if d.kind() == z3.Z3_OP_UNINTERPRETED and d.arity() == 1 and d.domain(0) == z3.IntSort():
+                    a = x.arg(0)
+                    if not _has_var(a):
+                        acc.setdefault(a.get_id(), a)
+                stack.extend(x.children())
+
+    frontier = {}
+    index_terms(g, frontier)
+    for h in ground:
+        if len(frontier) > max_terms:
+            break
+    for _ in range(rounds):
+        new_terms = {k: v for k, v in frontier.items() if k not in seen_terms}
+        if not new_terms or len(seen_terms) + len(new_terms) > max_terms:
+            break
+        seen_terms.update(new_terms)
+        frontier = {}
+        for h in quant:
+            for t in new_terms.values():
+                inst = z3.simplify(z3.substitute_vars(h.body(), t))
+                insts.append(inst)
+                index_terms(inst, frontier)
+    return ground + insts, g
+
+
+def _has_quantifier(t):
+    import z3
+    stack, seen = [t], set()
+    while stack:
+        x = stack.pop()
+        if x.get_id() in seen:
+            continue
+        seen.add(x.get_id())
+        if z3.is_quantifier(x):
+            return True
+        stack.extend(x.children())
+    return False
+
+
+def _has_var(t):
+    import z3
+    stack, seen = [t], set()
+    while stack:
+        x = stack.pop()
+        if x.get_id() in seen:
+            continue
+        seen.add(x.get_id())
+        if z3.is_var(x):
+            return True
+        if z3.is_app(x):
+            stack.extend(x.children())
+    return False
 
 
 def _func_symbols(t, acc, consts=False):
